@@ -5,3 +5,5 @@
 (declare-fun hvlen (Int) Int)
 (declare-fun hvstr (Int Int) Str)
 (assert (forall ((h Int)) (! (>= (hvlen h) 0) :pattern ((hvlen h)))))
+; stepname(ref, off, j): the step id PipelineSteps assigns to statement j of the statement slice (ref, off)
+(declare-fun stepname (Int Int Int) Str)
